@@ -530,17 +530,20 @@ func (s *DiscoveryServer) adsClientCount() int {
 }
 
 func (s *DiscoveryServer) ProxyUpdate(clusterID cluster.ID, ip string) {
-	var connection *Connection
+	// A proxy can have more than one connection registered: when it reconnects before this instance has noticed
+	// that its previous stream is dead, the old and the new connection coexist for a while. The update must reach
+	// every one of them - pushing only to the first match (map order) can leave the live stream with stale
+	// workload labels, and nothing else makes a connected proxy read them again.
+	var connections []*Connection
 
 	for _, v := range s.Clients() {
 		if v.proxy.Metadata.ClusterID == clusterID && v.proxy.IPAddresses[0] == ip {
-			connection = v
-			break
+			connections = append(connections, v)
 		}
 	}
 
 	// It is possible that the envoy has not connected to this pilot, maybe connected to another pilot
-	if connection == nil {
+	if len(connections) == 0 {
 		return
 	}
 	if log.DebugEnabled() {
@@ -556,12 +559,14 @@ func (s *DiscoveryServer) ProxyUpdate(clusterID cluster.ID, ip string) {
 	// a later context when it merges two requests (Start of the first, Push of the second).
 	s.pushContextMu.RLock()
 	defer s.pushContextMu.RUnlock()
-	s.pushQueue.Enqueue(connection, &model.PushRequest{
-		Push:   s.globalPushContext(),
-		Start:  time.Now(),
-		Reason: model.NewReasonStats(model.ProxyUpdate),
-		Forced: true,
-	})
+	for _, connection := range connections {
+		s.pushQueue.Enqueue(connection, &model.PushRequest{
+			Push:   s.globalPushContext(),
+			Start:  time.Now(),
+			Reason: model.NewReasonStats(model.ProxyUpdate),
+			Forced: true,
+		})
+	}
 }
 
 // AdsPushAll will send updates to all nodes.
